@@ -17,7 +17,7 @@ META = {
              "counts >= 4 or a repeated block with >= 2 relation leaves"),
     "assumptions": ["reference model qv/model.py (unroll = n copies, copy k+1 FOLLOWED_BY the latest-ending relation leaf before it)"],
     "floors": {
-        "quick": {"unrolled_programs": 3000, "apply_modifiers_post": 3000, "idempotence_checks": 3000, "library_concatenation_checks": 40,
+        "quick": {"unrolled_programs": 3000, "late_repetition_settings": 600, "apply_modifiers_post": 3000, "idempotence_checks": 3000, "library_concatenation_checks": 40,
                   "identity_outside_blocks": 5000, "time_triples_compared": 50000, "eq_multi": 20000},
         "thorough": {"unrolled_programs": 30000, "apply_modifiers_post": 30000, "library_concatenation_checks": 300},
     },
@@ -34,7 +34,12 @@ def plan(tier: str, seed: int) -> List[Dict[str, Any]]:
 
 
 def gen_case(rng: random.Random, cls: str) -> Dict[str, Any]:
-    prog = gen.gen_program(rng, cls, reps=[1, 2, 2, 3], p_sub=0.3, max_depth=2 if rng.random() < 0.7 else 3, sub_steps=(1, 4), steps=(2, 6))
+    late = rng.random() < 0.3
+    prog = gen.gen_program(rng, cls, reps=[1, 2, 2, 3], p_sub=0.3, max_depth=2 if rng.random() < 0.7 else 3, sub_steps=(1, 4), steps=(2, 6),
+                           **({"p_reg_reps": 0.6} if late else {}))
+    if late:
+        # registry-provided counts that are set / changed AFTER the blocks were nested and before the modifiers are applied
+        prog["settings"]["reps_late"] = {k: rng.choice([1, 2, 3, 4]) for k in gen.REP_KEYS if rng.random() < 0.8}
     return prog
 
 
@@ -65,6 +70,12 @@ def check_program(prog: Dict[str, Any], acc: Acc, flags=None):
     case = {"program": prog}
     with ctx.global_override():
         built = bp.build(prog, ctx)
+        late = (prog.get("settings") or {}).get("reps_late")
+        if late:
+            for k, v in late.items():
+                ctx.repetition_registry.set_registry_at(k, v)
+                S.reps[k] = v
+            acc.count("late_repetition_settings")
         top_reps = M.reps_of(M.MNode(is_block=True, reps=prog["circuit"].get("reps", 1)), S)
         flags["nontrivial"] = reps_product(prog["circuit"], S) >= 4 or multi_leaf_repeated(built.top.mnodes, S, top_reps)
         direct = [(h, snap.op_sig(h)) for h, c in zip(built.top.handles, built.top.children) if c is None]
